@@ -73,14 +73,34 @@ P.verify(fn(
 ))
 
 # ---- "__" in a local variable name ------------------------------------------------------------------------------
-fn('sfc_models.equation.Equation.__init__', args=dict(self=Ref('Equation'), lhs=STR, desc=STR, rhs=List(Ref('Term'))),
-   modifies=['f.Equation.*', 'f.Term.*', 'len.R', 'el.R', 'tyof'], raises=[RaisesSpec('Exception', when='True')])     # arbitrary: not needed here
-P.verify(fn(
-    'sfc_models.sector.Sector.AddVariable', name='sfc_models.sector.Sector.AddVariable[str eqn]',
-    args=dict(self=Ref('Sector'), varname=STR, desc=STR, eqn=STR),
-    raises=[RaisesSpec('ValueError', when="'__' in varname", iff=True, ensures=[('rejected_before_anything_is_changed', 'heap_unchanged_except()')])],
-    only_raises=False, contract_at_calls=False,
+from . import C06 as _c06  # noqa  (Equation.AddTerm contracts)
+# ---- Equation(lhs, desc, [Term]) and the whole of AddVariable (what every other module uses as the contract of AddVariable) ------------------------
+EQ_INIT = P.verify(fn(
+    'sfc_models.equation.Equation.__init__', name='sfc_models.equation.Equation.__init__[terms]',
+    args=dict(self=Ref('Equation'), lhs=STR, desc=STR, rhs=List(Ref('Term'))),
+    requires=[('plain_name', "not ('#' in lhs) and not ('=' in lhs)"),
+              ('one_blob_or_products', 'len(rhs) == 1 and rhs[0].IsBlob and rhs[0].Constant == 1.0'),
+              ('the_new_object_owns_nothing_yet', 'True')],
+    modifies=['f.Equation.*', 'f.Term.*', 'len.R', 'el.R', 'tyof'],
+    loops={0: LoopSpec(header='for t in rhs', index='i', modifies=['len.R', 'el.R', 'f.Term.*', 'tyof'], invariants=[
+        ('bounds', '0 <= i and i <= len(rhs)'),
+        ('argument_list_kept', 'len(rhs) == 1 and rhs is not self.TermList and unchanged(rhs) and rhs[0].IsBlob and rhs[0].Constant == 1.0 and rhs[0].Term == old(rhs[0].Term)'),
+        ('own_fresh_term_list', 'fresh(self.TermList) and eq_inv(self) and len(self.TermList) == i and self.LeftHandSide == lhs and self.Description == desc'),
+        ('copied_so_far', 'implies(i == 1, fresh(self.TermList[0]) and self.TermList[0].IsBlob and self.TermList[0].Constant == 1.0 and self.TermList[0].Term == old(rhs[0].Term))'),
+        ('old_lists_untouched', 'lists_unchanged()'),
+        ('only_this_equation_written', "fields_unchanged_but(self, 'Equation.LeftHandSide', 'Equation.Description', 'Equation.TermList')"),
+    ])},
+    ensures=[('named', 'self.LeftHandSide == lhs and self.Description == desc'),
+             ('one_copied_blob', 'fresh(self.TermList) and len(self.TermList) == 1 and fresh(self.TermList[0]) and self.TermList[0].IsBlob and '
+                                 'self.TermList[0].Constant == 1.0 and self.TermList[0].Term == old(rhs[0].Term)'),
+             ('invariant', 'eq_inv(self)'),
+             ('old_lists_untouched', 'lists_unchanged()'),
+             ('only_this_equation_written', "fields_unchanged_but(self, 'Equation.LeftHandSide', 'Equation.Description', 'Equation.TermList')")],
+    raises=[],
 ))
+
+fn('sfc_models.equation.EquationBlock.AddEquation', args=dict(self=Ref('EquationBlock'), eqn=Ref('Equation')), inline_always=True) if False else None
+P.verify(sector_contracts.ADDVARIABLE)
 
 # ---- markets with no or ambiguous supplier -----------------------------------------------------------------------
 HIT = "(self.Parent.SectorList[%s].ID != self.ID and has(self.Parent.SectorList[%s].EquationBlock.Equations, 'SUP_' + self.Code))"
